@@ -126,7 +126,7 @@ impl Check for C02 {
         };
         for (n, ce, k, frac) in cfgs {
             for sh in 0..SHARDS {
-                v.push(json!({"seed": seed, "cfg": k, "n": n, "c_is_eval": ce, "ands": 3 + k % 3, "shard": sh, "frac": frac}));
+                v.push(json!({"seed": seed, "cfg": k, "n": n, "c_is_eval": ce, "ands": 3 + k % 3, "shard": sh, "frac": frac, "swarm": if tier == Tier::Quick { 160 } else { 1600 }}));
             }
         }
         v
@@ -216,6 +216,24 @@ impl Check for C02 {
             out.count("two_fault_combinations", 1);
             out.distinct.push(entropy::fnv(0, serde_json::to_string(&(&spec.faults, cfg.base.seed)).unwrap().as_bytes()));
             out.violations.extend(c02_oracle(&spec, &run));
+        }
+        // swarm: random combinations of 2..4 structure-aware edits
+        let swarm = random_multi_faults(&cfg, &r, seed, case["swarm"].as_u64().unwrap_or(160) as usize);
+        for (i, spec) in swarm.iter().enumerate() {
+            if i as u64 % SHARDS != shard {
+                continue;
+            }
+            cx.begin(&serde_json::to_value(spec).unwrap());
+            let run = run_attack(spec, Some(r.run.clone()));
+            out.evals += 1;
+            out.sim_steps += run.res.steps;
+            out.merge_fired(&run.res.fired);
+            if !fault_effective(&run) {
+                continue;
+            }
+            out.count("multi_fault_swarm_runs", 1);
+            out.distinct.push(entropy::fnv(0, serde_json::to_string(&(&spec.faults, cfg.base.seed)).unwrap().as_bytes()));
+            out.violations.extend(c02_oracle(spec, &run));
         }
         if frac > 1 {
             let off = entropy::mix(seed, 0xc02f, 0) % frac;
